@@ -333,3 +333,24 @@ def _direct(spec, ctx):
         if np.abs(gram - np.eye(dim - 1)).max() > 2e-5:
             ctx.violation("ortho/basis-not-orthonormal", f"basis columns are not orthonormal (max dev {np.abs(gram - np.eye(dim - 1)).max():.3g})", case)
         ctx.distinct("C", dim, style, gm, i % 50)
+        # a metric that is not a scalar, a vector or a square matrix of the direction's size is documented as refused (model-input error): a
+        # wrongly shaped metric must never be turned silently into a basis that is not one
+        if i % 5 == 0:
+            from leaspy.exceptions import LeaspyModelInputError
+
+            bad_shape = [(1, dim), (2, dim) if dim != 2 else (3, dim), (dim, 1), (dim + 1,)][int(rng.integers(0, 4))]
+            Gbad = torch.tensor(np.exp(rng.uniform(-1, 1, size=bad_shape)), dtype=torch.float32)
+            ctx.count("ortho_direct_ill_shaped_metrics")
+            try:
+                Bb = compute_orthonormal_basis(dt, Gbad)
+            except (LeaspyModelInputError, ValueError):
+                ctx.count("ortho_direct_ill_shaped_metric_refused")
+            except Exception as e:
+                ctx.violation("ortho/ill-shaped-metric-wrong-exception", f"metric of shape {bad_shape} for a direction of size {dim} raised {type(e).__name__}: {str(e)[:120]} "
+                              "instead of a model-input error", dict(case, metric_shape=list(bad_shape)))
+            else:
+                Bb = Bb.double().numpy()
+                gram_b = Bb.T @ Bb if Bb.ndim == 2 else None
+                if gram_b is None or Bb.shape != (dim, dim - 1) or not np.isfinite(Bb).all() or np.abs(gram_b - np.eye(dim - 1)).max() > 2e-5:
+                    ctx.violation("ortho/ill-shaped-metric-accepted", f"metric of shape {bad_shape} for a direction of size {dim} was accepted and gave a 'basis' that is not "
+                                  "orthonormal", dict(case, metric_shape=list(bad_shape)))
